@@ -70,6 +70,10 @@ PROPS = {
     "C15": dict(profiles=["release", "relchk"],
                 drivers=[dict(name="mes_release", profile="release", args=["mes-cases", "--tier", "{tier}", "--out", "{out}", "--seed", "{seed}", "--adversarial", "1"]),
                          dict(name="mes_relchk", profile="relchk", args=["mes-cases", "--tier", "{tier}", "--out", "{out}", "--seed", "{seed}", "--adversarial", "1"]),
+                         dict(name="run_release", profile="release", module="TraceRun.tla", args=["run-program", "--tier", "{tier}", "--out", "{out}", "--seed", "{seed}", "--set", "c15"]),
+                         dict(name="run_relchk", profile="relchk", module="TraceRun.tla", args=["run-program", "--tier", "{tier}", "--out", "{out}", "--seed", "{seed}", "--set", "c15"]),
+                         dict(name="lines_release", profile="release", module="TraceRun.tla", args=["sock-replay", "--tier", "{tier}", "--out", "{out}", "--threads", "{threads}", "--seed", "{seed}", "--fuzz", "1"]),
+                         dict(name="lines_relchk", profile="relchk", module="TraceRun.tla", args=["sock-replay", "--tier", "{tier}", "--out", "{out}", "--threads", "{threads}", "--seed", "{seed}", "--fuzz", "1"]),
                          dict(name="sweep_release", profile="release", args=["panic-sweep", "--tier", "{tier}", "--forms", "{forms}", "--out", "{out}", "--threads", "{threads}", "--seed", "{seed}"]),
                          dict(name="sweep_relchk", profile="relchk", args=["panic-sweep", "--tier", "{tier}", "--forms", "{forms}", "--out", "{out}", "--threads", "{threads}", "--seed", "{seed}"])],
                 mc=[],
@@ -105,7 +109,8 @@ PROPS = {
                 rule="guest programs laid out as ELF files, loaded by the real elf::load and executed by the REAL Cpu::run in-process: port set-up + loop + calls + write system calls with awkward bytes; five programs ending in an instruction that must be rejected (ret err); counted loops; timer + set_handler + interrupt + port scenario; a long loop crossing the first sync threshold (three thresholds in thorough). One event per run-loop iteration (registers, whole-memory diff, charged states, state_sum, pending queue, messages, console); TLC executes the same program with the spec (long runs: accounting / sync / timer / continuity projection). Each program is run 5 times (2 of them under 24 busy host threads) and the run summaries (final state, state count, iteration count, hashes of the per-iteration (pc, charge) sequence and of the message sequence) must be equal", assumptions=COMMON_ASSUME),
     "C18": dict(gen=[dict(name="sched", module="MC_Sock.tla", cfg="Gen_Sock_t.cfg", cfg_q="Gen_Sock_q.cfg")],
                 mc=[dict(module="MC_Sock.tla", cfg="MC_Sock.cfg")],
-                drivers=[dict(name="sock", module="TraceRun.tla", args=["sock-replay", "--tier", "{tier}", "--in", "{sched}", "--out", "{out}", "--threads", "{threads}", "--seed", "{seed}"])],
+                drivers=[dict(name="sock", module="TraceRun.tla", args=["sock-replay", "--tier", "{tier}", "--in", "{sched}", "--out", "{out}", "--threads", "{threads}", "--seed", "{seed}"]),
+                         dict(name="tcp", module="TraceRun.tla", args=["tcp-frame", "--tier", "{tier}", "--out", "{out}", "--seed", "{seed}"])],
                 count_traces="histories", tv_timeout=2400,
                 rule="TLC enumerates EVERY sequence of 3 (4) lines over {pause, start, stop, two port stores, malformed cmd, malformed u8/ioport} x EVERY partition into polling batches; each is fed to the real Cpu::run through a channel-backed Socket, the on_poll hook enqueueing exactly the scheduled batch before pop_messages; plus seeded random schedules with batches of more than 16 lines, upper-case hex, unknown / empty lines, pins on valid and invalid ports, stores to RAM; per poll: effects of the lines in order (memory diff, announcements consumed from the message stream one by one, port read-backs), pause / start / stop state; iterations must not occur while paused or after stop; framing: MC_Sock round trip, TCP stream event", assumptions=COMMON_ASSUME),
 }
